@@ -224,7 +224,11 @@ class Case:
 
 
 def run_stream(binary, engine, text, timeout=1800):
-    rc, out, err = run([binary, engine], inp=text.encode(), timeout=timeout)
+    try:
+        rc, out, err = run([binary, engine], inp=text.encode(), timeout=timeout)
+    except subprocess.TimeoutExpired as e:
+        # a hang is an observation: keep what was printed so far
+        return -999, (e.stdout or b"").decode(errors="replace"), "TIMEOUT after %ss" % timeout
     return rc, out.decode(errors="replace"), err.decode(errors="replace")
 
 
